@@ -80,8 +80,8 @@ Definition envelope (n : Z) (o : op) (l' : Z) (d a b : est) : option Z :=
   | OMulAssign => mulct d a
   | OSquareInto => mulct a a
   | OSquareAssign => mulct d d
-  | OMulPtZnxInto _ | OMulPtRnxInto _ | OMulCstZnxInto _ | OMulCstRnxInto _ _ => mulpt a
-  | OMulPtZnxAssign _ | OMulPtRnxAssign _ | OMulCstZnxAssign _ | OMulCstRnxAssign _ _ => mulpt d
+  | OMulPtZnxInto _ | OMulPtRnxInto _ | OMulCstZnxInto _ _ | OMulCstRnxInto _ _ => mulpt a
+  | OMulPtZnxAssign _ | OMulPtRnxAssign _ | OMulCstZnxAssign _ _ | OMulCstRnxAssign _ _ => mulpt d
   | OMulAccCt => acc (mulct a b)
   | OMulAccPtZnx _ | OMulAccPtRnx _ => acc (mulpt a)
   | OMulAccCstZnx _ none | OMulAccCstRnx _ none => if none then un d else acc (mulpt a)
